@@ -117,6 +117,7 @@ type ConnSpec struct {
 	ClientFn func(o *ConnOutcome, conn net.Conn)
 	Payload  [][]byte
 	ReadSize int // client/server read buffer size (0: 4096)
+	CReadSize int // client read buffer size when it should differ from the server's
 
 	Peer     int
 	SCfg     *tls.Config
@@ -130,6 +131,9 @@ type ConnSpec struct {
 	AfterServerHS func(o *ConnOutcome)
 	// OnClientWrite runs on the scheduler goroutine before each client transport write is applied.
 	OnClientWrite func(l *simnet.Link, b []byte)
+	// ServerCloseAfter > 0: the server closes right after having echoed that many bytes (its
+	// close_notify then travels directly behind the last data record).
+	ServerCloseAfter int
 	// ServerStall: the server stops reading for this long right after its handshake (slow node).
 	ServerStall time.Duration
 }
@@ -249,6 +253,9 @@ func defaultServer(o *ConnOutcome, conn net.Conn) {
 				o.SIOErr = werr
 				break
 			}
+			if sp.ServerCloseAfter > 0 && len(o.SRead) >= sp.ServerCloseAfter {
+				break
+			}
 		}
 		if err != nil {
 			if err != io.EOF {
@@ -307,6 +314,9 @@ func defaultClient(o *ConnOutcome, conn net.Conn) {
 			break
 		}
 		total += len(p)
+	}
+	if sp.CReadSize > 0 {
+		rs = sp.CReadSize
 	}
 	buf := make([]byte, rs)
 	for o.CIOErr == nil && len(o.CRead) < total {
